@@ -134,3 +134,21 @@ prop('C10', units=['li', 'lp'], level='proof',
                   'from_proto::range is outside the unit (TextRange::new asserts start <= end; a reversed range sent by a client panics: not a C10 matter, noted in DESIGN)',
                   'offsets that are not on a char boundary or lie between CR and LF, and columns inside a surrogate pair, are outside the property; for them only absence of panics is proved',
                   'R11: the parameters named like their function (position, range) are alpha-renamed in the verified text'])
+
+prop('C09', units=['ls'], level='proof',
+     explanation=('Unit LS (index provenance): Verus proves, on the real bodies of the handler closures of crates/lsp/src/server.rs (definition, references, document_symbol, inlay_hint, '
+                  'document_link, folding_range and the closure that publishes diagnostics), that every conversion of an analysis result into LSP coordinates (to_proto::location / '
+                  'document_symbol / inlay_hint / document_link / folding_range / diagnostic) is called with the LineIndex OF THE FILE THE RESULT LIES IN: ghost li_file(index) is fixed by '
+                  'Analysis::line_index(file) and by from_proto::file / file_pos / file_range (assumed: they return the index of the requested document); a FileRange or Diagnostic carries its own '
+                  'file, other results lie in the file the analysis was asked about (assumed, res_file). The closures are moved mechanically into free functions (R15) because the trait impl '
+                  'returns boxed futures of spawned tasks; iterator plumbing (.into_iter().map(closure).collect()) is outlined (R14) with the precondition "every element satisfies the mapped '
+                  'closure\'s precondition", and the mapped closure itself is moved out and verified. Together with C10 (the index maps offsets of its own text exactly) this gives: a location in '
+                  'an included file is expressed in that file\'s coordinates. Not decided: that the analysis computed the right span (C05/C06/C17), hover and completion (no locations), '
+                  'the async delivery (C08/C11).'),
+     assumptions=['Verus/Z3/rustc sound; extraction faithful (round-trip audit); --no-trait-conflicts',
+                  'R15: the handler closures do not capture anything but what the capture table lists (rustc checks: a free function cannot capture); the impl blocks `impl LanguageServer for Server` and `impl Server` are external as a whole',
+                  'from_proto::file / file_pos / file_range return the line index of the document named in the request (their bodies: vfs lookup + Analysis::line_index(file_id); external_body here)',
+                  'Analysis::document_symbol / inlay_hint / document_link / folding_range answer for the file (range) they were asked about; Analysis::diagnostics files every diagnostic under diagnostic.location.file (ide::handlers::diagnostics::exec uses entry(diagnostic.location.file))',
+                  'std HashMap::into_iter / IntoIter::next yield pairs of the map; Vec::into_iter().map(f).collect() applies f to every element (R14 helpers, assumed)',
+                  'the RwLock around the Vfs is never poisoned; sending the publishDiagnostics notification is outside the unit',
+                  'to_proto::* conversions are external_body in this unit; position/range/location arithmetic is proved in unit LP (C10)'])
